@@ -29,6 +29,27 @@ CHECKS = {
             "DESIGN.md 6/C03"),
 }
 
+
+E2 = "stateless deviation-bounded schedule exploration (all runs with <= K departures from the default environment answer) of the real stack under a virtual event loop, monitored against a reference model"
+E3 = "explicit-state breadth-first search over operation histories with state deduplication, every transition executed on the real code and compared with a reference model"
+E1 = "bounded-exhaustive enumeration of a closed input space on the real code against an independent reference model"
+TB = "Trusted: CPython asyncio BaseEventLoop._run_once, the virtual loop / fake socket harness, mcv/refcodec.py and the per-property reference model. "
+CHECKS.update({
+    "C02": ("model_checking", E2,
+            "1-3 concurrent requests from a real client context to two scripted RFC 7252 servers; every datagram fate, server reply "
+            "mode, forged response (guessed/sniffed token, wrong source, replay), RST, ICMP error, sendmsg error and shutdown is a "
+            "choice point; after every step: only genuine matching responses are delivered to exactly their request, unmatched CON "
+            "-> one RST, futures complete at most once with error.Error subclasses, each terminating event completes what it concerns.",
+            TB + "K=1 everywhere + K=2 on two scenarios (quick); K=2 everywhere + K=3 on single-request scenarios (thorough).",
+            "DESIGN.md 6/C02"),
+    "C14": ("model_checking", E2,
+            "Scripted submissions of CON/NON requests to two peers; the monitor rebuilds open-exchange/backlog state per remote from the "
+            "wire and the applied events: never two open CON exchanges per remote, FIFO release in the very step the exchange ahead ends, "
+            "no delay for other remotes/NON, every held-back message transmitted or failed, _backlogs keys == remotes with an active exchange.",
+            TB + "K=1 on three scenarios + K=2 on one (quick); K=2 + K=3 (thorough).",
+            "DESIGN.md 6/C14"),
+})
+
 NOT_YET = {
 }
 
@@ -37,8 +58,11 @@ def main():
     props = [json.loads(l) for l in open(os.path.join(HERE, "properties.jsonl"))]
     ids = [p["id"] for p in props]
     checks = []
+    sys.path.insert(0, HERE)
+    from mcv.cli import MODULES
+    built = {pid for pid in CHECKS if os.path.exists(os.path.join(HERE, "mcv", "props", MODULES[pid] + ".py"))}
     for pid in ids:
-        if pid not in CHECKS:
+        if pid not in built:
             continue
         cat, tech, text, note, ref = CHECKS[pid]
         checks.append({
@@ -53,7 +77,7 @@ def main():
             "technique": tech,
         })
     na = [{"property_id": pid, "reason": NOT_YET.get(pid, "check not built yet in this session (technique applies; see DESIGN.md section 6)")}
-          for pid in ids if pid not in CHECKS]
+          for pid in ids if pid not in built]
     man = {
         "version": 1,
         "setup_cmd": "./check --selftest",
